@@ -62,8 +62,16 @@ class CondensedReactionGraph(MolGraph):
         o_color_array = color_refine_crg(other, atom_labels=o_labels)
         s_color_array = color_refine_crg(self, atom_labels=s_labels)
 
-        o_colors = {a: int(c) for a,c in zip(other.atoms, o_color_array)}
-        s_colors = {a: int(c) for a,c in zip(self.atoms, s_color_array)}
+        # the element is part of the label: the refined colours are hashes and
+        # may coincide for atoms of different elements (H2 and Cl2 did)
+        o_colors = {
+            a: (t, int(c))
+            for a, t, c in zip(other.atoms, other.atom_types, o_color_array)
+        }
+        s_colors = {
+            a: (t, int(c))
+            for a, t, c in zip(self.atoms, self.atom_types, s_color_array)
+        }
 
         return any(
                 vf2pp_all_isomorphisms(
